@@ -3,8 +3,9 @@
 (*                                                                                         *)
 (* One *group* of the trace (between {"e":"Reset"} events) belongs to one write history    *)
 (* under one writer configuration and consists of runs separated by {"e":"Rerun"}:         *)
-(*   run 1        the history on a sink that never fails; its Close event carries the      *)
-(*                bytes the sink holds = "the complete file of the history" (ref)          *)
+(*   run 1        the history on a sink that never fails; its Close must return OK and the *)
+(*                bytes the sink holds then must be a complete file (judged by the         *)
+(*                reference reader); they become "the complete file of the history" (ref)  *)
 (*   Prefixes     the open verdict of every proper prefix of ref, per open path            *)
 (*   runs 2..n    the same history with a failure point armed in the sink, or cut short    *)
 (*                by Abort                                                                 *)
@@ -17,6 +18,10 @@
 (*                   fault-free run, or a file the reference reader maps to exactly the   *)
 (*                   rows acknowledged by OK write_batch calls                             *)
 (*   WSFailReported  the sink failed  =>  some call, at the latest Close, returned non-OK  *)
+(*                   (sink:failure-never-reported:<stdio call whose failure was dropped>;  *)
+(*                   sink:close-ok-after-reported-failure:<call> when only WSAckComplete   *)
+(*                   fails: an earlier call reported the failure, close still said OK on   *)
+(*                   an incomplete file)                                                   *)
 (*   WSAbortClean    Abort => no file left behind (path writers), no descriptor leaked     *)
 (*   Prefix          a prefix that an open path accepts must be a complete Parquet file    *)
 (*                   according to the reference reader ParquetFile.ParseFile; a rejection  *)
@@ -63,11 +68,11 @@ Track(ops) == FoldLeft(OpStep, [s |-> sink, tracked |-> run.tracked, drift |-> 0
 FlatCol(t, c) == [defs |-> Flatten([g \in 1..Len(t) |-> t[g].cols[c].defs]),
                   vals |-> Flatten([g \in 1..Len(t) |-> t[g].cols[c].vals])]
 Completeness(bs) ==
-    IF bs = ref THEN "yes"
+    IF ref # <<>> /\ bs = ref THEN "yes"
     ELSE LET f == ParseFile(bs)
          IN IF ~f.ok THEN (IF f.why = "codec-not-modelled" THEN "undecided" ELSE "no")
             ELSE IF Len(f.leaves) = NCols /\ \A c \in 1..NCols : FlatCol(TableOf(f), c) = ack[c] THEN "yes" ELSE "no"
-CompleteWhy(bs) == IF bs = ref THEN "" ELSE LET f == ParseFile(bs) IN IF f.ok THEN "parses-but-table-differs-from-acknowledged-rows" ELSE f.why
+CompleteWhy(bs) == IF ref # <<>> /\ bs = ref THEN "" ELSE LET f == ParseFile(bs) IN IF f.ok THEN "parses-but-table-differs-from-acknowledged-rows" ELSE f.why
 
 \* ---- prefixes: v[k+1] is the verdict for cut k: 0 = NULL returned but no error code set,
 \*      1..8999 = rejected with that code, 9001 = opened, 9002 = crash/hang, 9003 = rejected but
@@ -107,12 +112,13 @@ CloseVerdict ==
         anyErr == impl.anyErr \/ ~closeOk
         ackBad == closeOk /\ ~WSAckComplete(closeOk, Completeness(Ev.bytes) # "no")
         repBad == ~WSFailReported(Ev.sf, anyErr)
-    IN IF run.refRun THEN (IF closeOk THEN {} ELSE {"ref:close-failed"})
-       ELSE CallVerdict(CanClose, "close-not-enabled")
-            \cup (IF ackBad \/ repBad
-                  THEN (IF fo = {} THEN {"sink:close-ok-but-bytes-missing"}
-                        ELSE {"sink:close-ok-after-failed-" \o OpName(k) : k \in fo})
-                  ELSE {})
+    IN (IF run.refRun /\ ~closeOk THEN {"ref:close-failed"} ELSE {})
+       \cup CallVerdict(CanClose, "close-not-enabled")
+       \cup (IF ackBad \/ repBad
+           THEN (IF fo = {} THEN {"sink:close-ok-but-bytes-missing"}
+                 ELSE IF repBad THEN {"sink:failure-never-reported:" \o OpName(k) : k \in fo}
+                 ELSE {"sink:close-ok-after-reported-failure:" \o OpName(k) : k \in fo})
+           ELSE {})
 CloseDetail ==
     LET anyErr == impl.anyErr \/ Ev.st # 0
     IN "accepted=" \o ToString(Ev.acc) \o " of " \o ToString(Len(ref))
@@ -193,8 +199,11 @@ Fresh == wst' = "none" /\ schema' = <<>> /\ cur' = <<>> /\ done' = <<>> /\ sink'
 TReset == /\ l <= Len(Tr) /\ Ev.e = "Reset"
           /\ Fresh /\ ref' = <<>> /\ skip' = FALSE /\ l' = l + 1 /\ UNCHANGED bad
           /\ stats' = [stats EXCEPT !.execs = @ + 1]
-TRerun == /\ l <= Len(Tr) /\ Ev.e = "Rerun"
-          /\ Fresh /\ skip' = FALSE /\ l' = l + 1 /\ UNCHANGED <<bad, ref, stats>>
+\* a group whose reference run was rejected is skipped as a whole (nothing to compare with)
+TRerun == /\ l <= Len(Tr) /\ Ev.e = "Rerun" /\ l' = l + 1
+          /\ IF skip /\ run.refRun
+             THEN UNCHANGED <<wst, schema, cur, done, sink, impl, skip, bad, stats, ref, run, ack>>
+             ELSE Fresh /\ skip' = FALSE /\ UNCHANGED <<bad, ref, stats>>
 TSkip == /\ l <= Len(Tr) /\ Ev.e \notin {"Reset", "Rerun"} /\ skip
          /\ l' = l + 1 /\ UNCHANGED <<wst, schema, cur, done, sink, impl, skip, bad, stats, ref, run, ack>>
 TStep == /\ l <= Len(Tr) /\ Ev.e \notin {"Reset", "Rerun"} /\ ~skip
